@@ -3,6 +3,7 @@
 package rest
 
 import (
+	"encoding/base64"
 	"encoding/json"
 	"fmt"
 	"os"
@@ -68,6 +69,7 @@ type c06State struct {
 	Body    string
 	Leaves  string // sorted "revid[parent](deleted)" of every leaf of the revision tree
 	Roots   int    // number of parentless revisions in the revision tree
+	Atts    string // sorted "name=digest(readable|UNREADABLE)" of the current revision's attachments
 }
 
 func c06Read(rt *RestTester, docID string) c06State {
@@ -100,6 +102,18 @@ func c06Read(rt *RestTester, docID string) c06State {
 		body, _ := doc.GetDeepMutableBody()
 		b, _ := json.Marshal(body)
 		st.Body = string(b)
+		var atts []string
+		for name, meta := range doc.Attachments() {
+			m, _ := meta.(map[string]any)
+			digest, _ := m["digest"].(string)
+			state := "readable"
+			if resp := rt.SendAdminRequest("GET", "/{{.keyspace}}/"+docID+"/"+name, ""); resp.Code != 200 || db.Sha1DigestKey(resp.Body.Bytes()) != digest {
+				state = "UNREADABLE"
+			}
+			atts = append(atts, name+"="+digest+"("+state+")")
+		}
+		sort.Strings(atts)
+		st.Atts = strings.Join(atts, ",")
 	}
 	return st
 }
@@ -130,6 +144,35 @@ func (w *c06World) editBody(rt *RestTester, side string, bad bool) bool {
 	resp := rt.SendAdminRequest("PUT", url, body)
 	if resp.Code != 201 && resp.Code != 200 {
 		w.t.Fatalf("edit on %s failed: %d %s (%s)", side, resp.Code, resp.Body.String(), w.c)
+	}
+	return true
+}
+
+// editAtt is an edit that (re)writes attachment "a" with content unique to this edit and keeps attachment "k" (written
+// by the first such edit) as a stub
+func (w *c06World) editAtt(rt *RestTester, side string) bool {
+	st := c06Read(rt, w.doc)
+	w.n++
+	content := base64.StdEncoding.EncodeToString([]byte(fmt.Sprintf("attachment written by %s in edit %d %s", side, w.n, strings.Repeat("x", 64))))
+	atts := fmt.Sprintf(`"a":{"data":"%s"}`, content)
+	if strings.Contains(st.Atts, "k=") {
+		coll, ctx := rt.GetSingleTestDatabaseCollection()
+		if doc, err := coll.GetDocument(ctx, w.doc, db.DocUnmarshalAll); err == nil {
+			if m, ok := doc.Attachments()["k"].(map[string]any); ok {
+				atts += fmt.Sprintf(`,"k":{"stub":true,"digest":"%v","revpos":%v}`, m["digest"], m["revpos"])
+			}
+		}
+	} else {
+		atts += fmt.Sprintf(`,"k":{"data":"%s"}`, base64.StdEncoding.EncodeToString([]byte("kept attachment "+w.doc)))
+	}
+	body := fmt.Sprintf(`{"by":"%s","n":%d,"channels":["alice"],"_attachments":{%s}}`, side, w.n, atts)
+	url := "/{{.keyspace}}/" + w.doc
+	if st.Exists {
+		url += "?rev=" + st.RevTree
+	}
+	resp := rt.SendAdminRequest("PUT", url, body)
+	if resp.Code != 201 && resp.Code != 200 {
+		w.t.Fatalf("edit with attachments on %s failed: %d %s (%s)", side, resp.Code, resp.Body.String(), w.c)
 	}
 	return true
 }
@@ -268,6 +311,10 @@ func c06History(t testing.TB, r *vreport.Report, c c06Case, peers TestISGRPeers,
 			ok = w.del(w.active, "A")
 		case "delP":
 			ok = w.del(w.passive, "P")
+		case "editAatt":
+			ok = w.editAtt(w.active, "A")
+		case "editPatt":
+			ok = w.editAtt(w.passive, "P")
 		case "editPbad":
 			ok = w.editBody(w.passive, "P", true)
 		case "acceptA":
@@ -343,7 +390,7 @@ func c06History(t testing.TB, r *vreport.Report, c c06Case, peers TestISGRPeers,
 			}
 		}
 		a, p := c06Read(w.active, docID), c06Read(w.passive, docID)
-		if !refused() && (a.Exists != p.Exists || a.Deleted != p.Deleted || a.Body != p.Body) {
+		if !refused() && (a.Exists != p.Exists || a.Deleted != p.Deleted || a.Body != p.Body || a.Atts != p.Atts || strings.Contains(a.Atts+p.Atts, "UNREADABLE")) {
 			if cause := c06RootCause(a, p); cause != "" {
 				r.Violate(c06Prop+"/diverged/"+cause+"/"+tag0, fmt.Sprintf("after pull and push (resuming from their checkpoints) transfer nothing more: active=%+v passive=%+v; %s", a, p, c), c)
 			} else {
@@ -397,6 +444,9 @@ func c06History(t testing.TB, r *vreport.Report, c c06Case, peers TestISGRPeers,
 		}
 		if a.Body != p.Body {
 			diffs = append(diffs, "body-differs")
+		}
+		if a.Atts != p.Atts || strings.Contains(a.Atts+p.Atts, "UNREADABLE") {
+			diffs = append(diffs, "attachments-differ-or-unreadable")
 		}
 		if c.Protocol == "v3" && a.RevTree != p.RevTree {
 			diffs = append(diffs, "current-revision-differs")
